@@ -291,12 +291,13 @@ func PoolHeader(r *hx.Rand, comp string, ntab int) string {
 	return h
 }
 
-// itSim predicts the ids the executor hands out (sequences and traversals), so that later ops can name them.
+// itSim predicts the ids the executor hands out (sequences and traversals) and which traversals a change of a table
+// breaks (those that have started), so that later ops can name the interesting ones.
 type itSim struct {
-	content  []map[int]bool
-	seqTid   []int
-	seqValid []bool
-	pullSid  []int
+	content   []map[int]bool
+	seqTid    []int
+	pullTid   []int
+	pullState []int // 0 not started, 1 started, 2 broken or run as a loop
 }
 
 func newItSim(ntab int) *itSim {
@@ -308,44 +309,53 @@ func newItSim(ntab int) *itSim {
 }
 
 func (s *itSim) mutate(t int) {
-	for i, x := range s.seqTid {
-		if x == t {
-			s.seqValid[i] = false
+	for i, x := range s.pullTid {
+		if x == t && s.pullState[i] == 1 {
+			s.pullState[i] = 2
 		}
 	}
 }
 func (s *itSim) seq(t int) int {
 	s.seqTid = append(s.seqTid, t)
-	s.seqValid = append(s.seqValid, true)
 	return len(s.seqTid) - 1
 }
 func (s *itSim) pull(sid int) int {
-	if sid >= len(s.seqTid) || !s.seqValid[sid] {
+	if sid >= len(s.seqTid) {
 		return -1
 	}
-	s.pullSid = append(s.pullSid, sid)
-	return len(s.pullSid) - 1
+	s.pullTid = append(s.pullTid, s.seqTid[sid])
+	s.pullState = append(s.pullState, 0)
+	return len(s.pullTid) - 1
+}
+
+// loop: a sequence run by a for-range (the executor registers a traversal that is over)
+func (s *itSim) loop(sid int) {
+	if p := s.pull(sid); p >= 0 {
+		s.pullState[p] = 2
+	}
+}
+func (s *itSim) next(p int) {
+	if p >= 0 && p < len(s.pullState) && s.pullState[p] == 0 {
+		s.pullState[p] = 1
+	}
 }
 func (s *itSim) nested(x, y int) {
-	sid := s.seq(x)
-	s.pull(sid)
+	s.loop(s.seq(x))
 	for range s.content[x] {
-		s.pull(s.seq(y))
+		s.loop(s.seq(y))
 	}
 }
 func (s *itSim) validSeqs() []int {
-	var out []int
-	for i, v := range s.seqValid {
-		if v {
-			out = append(out, i)
-		}
+	out := make([]int, len(s.seqTid))
+	for i := range out {
+		out[i] = i
 	}
 	return out
 }
 func (s *itSim) livePulls() []int {
 	var out []int
-	for i, sid := range s.pullSid {
-		if s.seqValid[sid] {
+	for i, st := range s.pullState {
+		if st != 2 {
 			out = append(out, i)
 		}
 	}
@@ -421,7 +431,7 @@ func GenPoolMix(r *hx.Rand, ntab, n, universe int) []string {
 				sid := hx.Pick(r, vs)
 				if r.Bool() {
 					ops = append(ops, fmt.Sprintf("range %d %d", sid, r.Range(-1, 4)))
-					sim.pull(sid)
+					sim.loop(sid)
 				} else {
 					ops = append(ops, fmt.Sprintf("pull %d", sid))
 					sim.pull(sid)
@@ -429,7 +439,9 @@ func GenPoolMix(r *hx.Rand, ntab, n, universe int) []string {
 			}
 		case x < 97:
 			if lp := sim.livePulls(); len(lp) > 0 {
-				ops = append(ops, fmt.Sprintf("next %d", hx.Pick(r, lp)))
+				p := hx.Pick(r, lp)
+				ops = append(ops, fmt.Sprintf("next %d", p))
+				sim.next(p)
 			} else {
 				ops = append(ops, fmt.Sprintf("next %d", r.Intn(3)))
 			}
@@ -452,11 +464,20 @@ func GenPoolMix(r *hx.Rand, ntab, n, universe int) []string {
 // GenIter: traversals as values. Tables 0 and 1 are filled, then sequences are obtained, pulled from (two traversals
 // of one table advanced alternately, one ahead of the other), run as loops (to the end, broken off early, twice),
 // nested (a table inside its own traversal, a table inside another one's), while the tables are read and the OTHER
-// table is changed; at the end table 0 itself is changed, which ends its traversals.
+// table is changed; then table 0 itself is changed - grown through several resizes, shrunk, emptied - and the
+// sequences obtained BEFORE are run again (they must list the table as it is when they are run), traversals that had
+// not started start now, and only the traversals that were half-way are over (`invalid`).
 func GenIter(r *hx.Rand, n0, n1 int) []string {
 	sim := newItSim(2)
 	var ops []string
 	add := func(format string, a ...any) { ops = append(ops, fmt.Sprintf(format, a...)) }
+	next := func(p int) { add("next %d", p); sim.next(p) }
+	loop := func(sid, limit int) { add("range %d %d", sid, limit); sim.loop(sid) }
+	// a sequence obtained from the EMPTY table, kept to the end
+	add("seq")
+	sE := sim.seq(0)
+	add("pull %d", sE)
+	pE := sim.pull(sE) // never started before the table has changed many times
 	for i := 0; i < n0; i++ {
 		k := i * r.Range(1, 3)
 		add("put %d %d", k, 100+i)
@@ -469,6 +490,9 @@ func GenIter(r *hx.Rand, n0, n1 int) []string {
 	}
 	add("size")
 	add("b.size")
+	if r.Bool() {
+		loop(sE, -1) // obtained at 0 entries, run at n0
+	}
 	// two traversals of table 0 alive at once
 	add("seq")
 	s0 := sim.seq(0)
@@ -481,7 +505,7 @@ func GenIter(r *hx.Rand, n0, n1 int) []string {
 	p0 := sim.pull(s0)
 	ahead := r.Intn(n0/2 + 2)
 	for i := 0; i < ahead; i++ {
-		add("next %d", p0)
+		next(p0)
 	}
 	add("pull %d", s1)
 	p1 := sim.pull(s1)
@@ -491,12 +515,12 @@ func GenIter(r *hx.Rand, n0, n1 int) []string {
 	p2 := sim.pull(s2)
 	steps := n0 + 2 - r.Intn(3)
 	for i := 0; i < steps; i++ {
-		add("next %d", p1)
+		next(p1)
 		if r.Chance(4, 5) {
-			add("next %d", p0)
+			next(p0)
 		}
 		if r.Chance(1, 3) {
-			add("next %d", p2)
+			next(p2)
 		}
 		switch r.Intn(12) {
 		case 0:
@@ -509,35 +533,34 @@ func GenIter(r *hx.Rand, n0, n1 int) []string {
 			add("all")
 		case 4:
 			add("equal 0 0")
-		case 5: // the other table changes: only its traversals end
+		case 5: // the other table changes: only its traversals that are half-way end
 			k := r.Intn(2*n1 + 3)
 			add("b.put %d %d", k, i)
 			sim.content[1][k] = true
 			sim.mutate(1)
-			add("next %d", p2)
+			next(p2)
+			if r.Bool() { // a new traversal of the same sequence sees the table as it is now
+				add("pull %d", s2)
+				p2 = sim.pull(s2)
+			}
 		case 6:
-			add("range %d %d", s0, r.Range(-1, n0))
-			sim.pull(s0)
+			loop(s0, r.Range(-1, n0))
 		}
 	}
 	if r.Bool() { // abandoned half-way
 		add("stop %d", p0)
-		add("next %d", p0)
+		next(p0)
 	} else {
-		add("next %d", p0)
-		add("next %d", p0)
+		next(p0)
+		next(p0)
 	}
-	add("next %d", p1)
-	add("next %d", p1)
+	next(p1)
+	next(p1)
 	// a sequence obtained once and run twice (and once more, broken off)
-	add("range %d -1", s0)
-	sim.pull(s0)
-	add("range %d %d", s0, r.Intn(n0+1))
-	sim.pull(s0)
-	add("range %d -1", s0)
-	sim.pull(s0)
-	add("range %d 0", s1)
-	sim.pull(s1)
+	loop(s0, -1)
+	loop(s0, r.Intn(n0+1))
+	loop(s0, -1)
+	loop(s1, 0)
 	// nested loops: a table inside its own traversal, and the two tables inside each other
 	add("nested 0 0 -1")
 	sim.nested(0, 0)
@@ -550,34 +573,51 @@ func GenIter(r *hx.Rand, n0, n1 int) []string {
 	add("nested 0 0 %d", r.Range(0, 3))
 	sim.nested(0, 0)
 	// a sequence made by a nested loop is still good
-	if vs := sim.validSeqs(); len(vs) > 0 {
-		sid := hx.Pick(r, vs)
-		add("range %d -1", sid)
-		sim.pull(sid)
-	}
+	loop(r.Intn(len(sim.seqTid)), -1)
 	add("size")
 	add("all")
-	// table 0 changes: its sequences and traversals are over
+	// table 0 changes while one traversal is half-way (p3) and another has not started (p4)
 	add("pull %d", s1)
 	p3 := sim.pull(s1)
-	add("next %d", p3)
+	next(p3)
+	add("pull %d", s1)
+	p4 := sim.pull(s1)
 	add("put %d 1", 2*n0+7)
 	sim.content[0][2*n0+7] = true
 	sim.mutate(0)
-	add("next %d", p3)
-	add("next %d", p1)
-	add("pull %d", s0)
-	add("range %d -1", s0)
+	next(p3) // invalid
+	next(p1)
+	next(p4) // starts now: the table with the new key
+	next(p4)
+	loop(s0, -1) // obtained before the change, run after it
 	add("stop %d", p3)
-	add("seq")
-	s4 := sim.seq(0)
-	add("range %d -1", s4)
-	sim.pull(s4)
+	// … and through resizes: grow by a few hundred keys, run; shrink, run; empty, run
+	grow := r.Range(40, 400)
+	add("putn %d %d 1 5", 100000, grow)
+	sim.mutate(0)
+	next(p4) // was half-way: invalid
+	loop(s0, -1)
+	loop(sE, r.Range(-1, 5))
+	add("pull %d", s0)
+	p5 := sim.pull(s0)
+	next(p5)
+	add("deln %d %d 1", 100000, grow-r.Intn(3))
+	sim.mutate(0)
+	next(p5) // invalid
+	loop(s0, -1)
+	loop(s1, -1)
+	next(pE) // the traversal obtained from the empty table starts only now
+	next(pE)
 	add("nested 0 0 -1")
-	add("delete %d", 2*n0+7)
-	add("range %d -1", s4)
-	add("next 99")
-	add("pull 999")
+	add("deleteall")
+	next(pE)
+	loop(s0, -1)
+	loop(sE, -1)
+	add("put 3 3")
+	loop(sE, -1)
+	add("next 9999")
+	add("pull 9999")
+	add("range 9999 -1")
 	add("all")
 	return ops
 }
